@@ -625,7 +625,10 @@ fn exec_e2e(ops: &[String], stats: &mut Stats) -> Vec<String> {
             stats.bump(&format!("e2e_buildid_len_{}", s.build_id.as_ref().map(|b| b.len().to_string()).unwrap_or("none".into())));
         }
         if f.present {
-            let p = dir.join(&f.name);
+            // a name `reloc/<base>` stands for a binary that was moved together with the recording: the
+            // MMAP2 record names `$D/reloc/<base>` (which does not exist), the file sits next to perf.data,
+            // where `samply import` looks by itself (utils.rs open_file_with_fallback)
+            let p = dir.join(f.name.strip_prefix("reloc/").unwrap_or(&f.name));
             let ok = p.parent().map(|d| std::fs::create_dir_all(d).is_ok()).unwrap_or(false) && std::fs::write(&p, &bytes).is_ok();
             if !ok {
                 let _ = std::fs::remove_dir_all(&dir);
@@ -1250,6 +1253,12 @@ fn gen_e2e(rng: &mut Rng) -> Vec<String> {
             2 => {
                 b.add_gen(rng, &name, true, None, 3);
             }
+            4 | 5 if rng.chance(1, 2) => {
+                // moved together with the recording (found through the lookup dir, not at the mapped path)
+                let base = name.rsplit('/').next().unwrap().to_string();
+                let bid = if rng.chance(1, 4) { None } else { Some(gen_bytes(rng, 20)) };
+                b.add_gen(rng, &format!("reloc/r{k}-{base}"), true, bid, 3);
+            }
             3 if rng.chance(1, 2) => {
                 // a file and a byte-identical copy: under the same file name in another directory (equal keys) or
                 // under another name (equal build id, different key)
@@ -1314,6 +1323,15 @@ fn boundary_e2e() -> Vec<Case> {
         b.add_copy(&mut rng, "d1/libdup.so", 0, &spec, &expect, 2);
         b.add_copy(&mut rng, "d2/other-name.so", 0, &spec, &expect, 2);
         v.push(Case { name: "b-dupkey".to_string(), ops: b.finish(&mut rng) });
+    }
+    // binaries moved together with the recording, with and without build id, next to one found in place
+    {
+        let mut b = E2eBuilder::new();
+        b.add_gen(&mut rng, "reloc/libmoved.so", true, Some((50..70).collect()), 3);
+        b.add_gen(&mut rng, "reloc/moved-nobid", true, None, 2);
+        let bid = gen_bytes(&mut rng, 20);
+        b.add_gen(&mut rng, "d1/inplace.so", true, Some(bid), 2);
+        v.push(Case { name: "b-relocated".to_string(), ops: b.finish(&mut rng) });
     }
     // absent file, absent + present, fixtures
     {
